@@ -1,4 +1,5 @@
 """C11 - construction validates: structural clauses of add_edge / add_face / add_cell and their tet/hex overrides"""
+import re
 from .canon import ceq, eq_match
 from .extract import AnalysisBroken
 from .facts import as_assign, estr, need_names, unwrap, walk
@@ -67,6 +68,7 @@ def run(ck, fb, fbd):
     # an accepted call appends exactly the given definition: the hexahedral re-ordering hands on a complete list (shared with C16)
     from .c15_c16 import reorder_total_rule
     reorder_total_rule(ck, fb)
+    vertex_list_nonempty_rule(ck, fb)
     elem = elem_effects(c)
     # kernel / resource-manager members that change state: direct shape or cache-element effects, closed under calls
     mutating = {fid for fid in c.eff} | {fid for fid, v in elem.items() if v}
@@ -234,6 +236,24 @@ def nonempty_entry(ck, fb):
             raise AnalysisBroken("%s: the append to the definition array is not unique (%d)" % (name, len(grows)))
         rets = [(b, i, x) for b, i, x in f.tops() if x.get("k") == "ret" and b in f.reach()]
         nonempty_rule(ck, f, [(b, i, x) for b, i, x in rets if not f.dominates(grows[0]["pos"], (b, i))])
+
+
+def vertex_list_nonempty_rule(ck, fb):
+    """add_face(vertex list): the pair walk looks one element ahead, so the empty list has to leave first (F74)"""
+    from .canon import Canon
+    ck.rule("Q.nonempty", "TopologyKernel::add_face(vertices) reaches its first add_edge / first element access only under the fact that the list is not empty: the loop over consecutive pairs starts with (it + 1) != end, which is past the end for an empty list")
+    fs = [f for f in fb.by_cls.get(TK, []) if f.name == "add_face" and f.has_cfg and len(f.d["params"]) == 1 and "VH" in f.d["params"][0]["t"]]
+    if len(fs) != 1:
+        raise AnalysisBroken("anchor vanished: TopologyKernel::add_face(vertices) (%d)" % len(fs))
+    f = fs[0]
+    cn = Canon(f)
+    sites = [(b, x) for b, i, x in f.nodes(("call",)) if x.get("pn", "").endswith("::add_edge") and b in f.reach()]
+    if not sites:
+        ck.cannot_judge("Q.nonempty %s: add_face(vertices) has no add_edge call - written in another form" % f.where)
+        return
+    for b, x in sites:
+        ok = any((s_ == "P0.empty()" and p_ is False) or (re.fullmatch(r"\(P0\.size\(\) (<|==|<=) \d+\w*\)|\(\d+\w* (==|>|>=) P0\.size\(\)\)", s_) and p_ is False) or (re.fullmatch(r"\(P0\.size\(\) (>|>=|!=) \d+\w*\)", s_) and p_ is True) for s_, p_, c_ in cn.facts(b))
+        (ck.ok if ok else lambda r_, w_, t_: ck.violate(r_, w_, t_, "Q.nonempty:add_face_vertices"))("Q.nonempty", f.loc(x), "add_face(vertices) builds edges only for a non-empty vertex list")
 
 
 def dedup_rule(ck, fb):
